@@ -29,15 +29,15 @@ def plan(tier, seed):
         digits = bits(rep) - (1 if signed(rep) else 0)
         for e in range(-digits, 1):
             idig = digits + e
-            if idig > 4 and e % 5 and e != 0:
-                continue  # plenty of integer digits: sample the exponents
-            if quick and bits(rep) >= 32 and e % 3 and idig > 2:
+            # thorough: every exponent of every rep ("for all (Rep, Exponent) instantiations"); quick: every exponent that leaves at
+            # most 4 integer digits (where the constants stop fitting, one by one) and every third of the others
+            if quick and idig > 4 and e % 3 and e != 0:
                 continue
             consts.append('c20::Constants<%s, %d, %d>::reg("%s:%d")' % (rep, e, idig, short(rep), e))
     cases = 20000 if quick else 400000
     units = [Unit('C20-exp2-gxx-%d' % i, 'gxx', 'props/C20.h', part, rc_cases=cases, enum_max=2 ** 16 if quick else 2 ** 20, chunk=8)
              for i, part in enumerate(split(exp2, 10))]
     units += [Unit('C20-const-gxx-%d' % i, 'gxx', 'props/C20.h', part, rc_cases=0, enum_max=64, chunk=12)
-              for i, part in enumerate(split(consts, 6))]
+              for i, part in enumerate(split(consts, 6 if quick else 16))]
     units.append(Unit('C20-clang', 'clang', 'props/C20.h', exp2[:6] + consts[:12], rc_cases=cases, enum_max=2 ** 16, chunk=9))
     return dict(units=units, rule=RULE, assumptions=['MPFR at 256-320 bits as the reference; a floor within 2^-200 of an integer would be misjudged (cannot occur for non-integral x of <= 32 bits)'])
